@@ -149,6 +149,7 @@ func c05Config(ctx *core.Ctx, goos, goarch string) {
 	ctx.Rule("C05.R7", "no mutex is leaked by a function of the receive cone", 3)
 
 	c05NilResults(ctx, r)
+	c05ServerLoopErrors(ctx, r)
 	// a goroutine that re-acquires a mutex it holds wedges itself and everyone behind that mutex
 	noDoubleAcquire(ctx, r, "C05.R7", "FBaseProcessor", "FBaseProcessorFunction", "fRegistryImpl", "fAdapterTransport")
 
